@@ -51,8 +51,18 @@ CHECKS = {
  "C20": dict(tech="runtime monitoring: fd 1/2 redirected to capture files sampled after every library call while a log handler is installed; workloads of all other checks weighted to failure paths",
              text="no byte reached stdout/stderr during ~60k observed library calls (8k of which produced handler messages) per quick run",
              note="calls whose contract is to write to stdout (NULL filename writers) are not issued"),
+ "C12": dict(tech="runtime monitoring: complete enumeration of type-consistent bases of small LPs with an exact Fraction evaluation of each basis as oracle for the three verdict functions; bases returned by the exact solver re-evaluated exactly, re-verified and warm-started",
+             text="QSexact_basis_optimalstatus/_dualstatus/QSexact_verify agree with the exact basic solution for every enumerated non-singular basis; every returned OPTIMAL basis is exactly optimal (explored LPs)",
+             note="singular bases are only counted; QSexact_verify with prestep may also accept an exactly verified optimum reached from the basis (documented behaviour)"),
+ "C13": dict(tech="runtime monitoring: exact multiply-back of every B^-1 / tableau row after arbitrary iteration counts and pivotins (hook H2 counts updates since refactor), plus a component driver for factor_mpq.h checked against a Python copy of the matrix",
+             text="all observed LU solves satisfy their systems exactly (up to 122 accumulated updates at API level) and singular matrices/updates are reported, on the explored matrices and runs",
+             note="trusted: Fraction arithmetic, the driver's dump of the logical coefficients read from the store"),
+ "C19": dict(tech="runtime monitoring: the built esolver binary (ASan and plain) run on generated and mutated files x options; solution/basis files parsed and judged by the exact certificate oracle and the certified reference",
+             text="exit status, status line, listed values and -b/-B round trip are correct for the explored files/options; malformed files never crash it",
+             note="zeros are implied for unlisted names; rows must be named in the input"),
 }
 ENGINES = [
+ dict(name="ludrive", path="harness/ludrive.c", serves_properties=["C13"], kind_free_text="component driver for the sparse LU code (factor_mpq.h): factor, ftran, btran, column replacement"),
  dict(name="qsdrive", path="harness/qsdrive.c", serves_properties=sorted(CHECKS), kind_free_text="script interpreter over the public API writing a before/after event log; built per flavour (gcc ASan+UBSan, plain) from /repo's working tree by build/mkbuild.py"),
  dict(name="oracles", path="vlib/", serves_properties=sorted(CHECKS), kind_free_text="exact Python oracles: reference LP store, certificate checkers, self-certifying reference simplex, generators, process pool / triage / known-findings / evidence"),
 ]
